@@ -173,7 +173,7 @@ def run(ctx):
                 "with the definitional image (Geom.tla); non-trivial = (world, option, operation) with g not the "
                 "identity map")
     wl = [dict(w, name=n) for n, w in worlds.CATALOGUE.items()]
-    for _ in range(12 if quick else 150):
+    for _ in range(12 if quick else 450):
         wl.append(worlds.random_world(rng, maxatoms=4))
     maxops = 16 if quick else 48
     nprobe = ({"pos": 3, "pts": 3, "dirs": 2, "tens": 2, "pairs": 2} if quick else
